@@ -3260,6 +3260,7 @@ struct RegistryT<
 	struct BackUp final {
 		CompoForks compoRequested;
 		OrthoForks orthoRequested;
+		CompoRemains compoRemains;
 	};
 
 	HFSM2_CONSTEXPR(14)	Prong activeSubState		(const StateID stateId)	  const noexcept;
@@ -3585,6 +3586,7 @@ void
 RegistryT<ArgsT<TG_, TSL_, TRL_, NCC_, NOC_, NOU_, TRO_ HFSM2_IF_SERIALIZATION(, NSB_) HFSM2_IF_PLANS(, NTC_), TTP_>>::backup(BackUp& copy) const noexcept {
 	overwriteWith(copy.compoRequested, compoRequested);
 	overwriteWith(copy.orthoRequested, orthoRequested);
+	overwriteWith(copy.compoRemains  , compoRemains  );
 }
 
 template <typename TG_, typename TSL_, typename TRL_, Long NCC_, Long NOC_, Long NOU_, typename TRO_ HFSM2_IF_SERIALIZATION(, Long NSB_) HFSM2_IF_PLANS(, Long NTC_), typename TTP_>
@@ -3593,6 +3595,7 @@ void
 RegistryT<ArgsT<TG_, TSL_, TRL_, NCC_, NOC_, NOU_, TRO_ HFSM2_IF_SERIALIZATION(, NSB_) HFSM2_IF_PLANS(, NTC_), TTP_>>::restore(const BackUp& copy) noexcept {
 	overwriteWith(compoRequested, copy.compoRequested);
 	overwriteWith(orthoRequested, copy.orthoRequested);
+	overwriteWith(compoRemains  , copy.compoRemains  );
 }
 
 template <typename TG_, typename TSL_, typename TRL_, Long NCC_, Long NOC_, Long NOU_, typename TRO_ HFSM2_IF_SERIALIZATION(, Long NSB_) HFSM2_IF_PLANS(, Long NTC_), typename TTP_>
@@ -3659,6 +3662,7 @@ struct RegistryT<
 
 	struct BackUp final {
 		CompoForks compoRequested;
+		CompoRemains compoRemains;
 	};
 
 	HFSM2_CONSTEXPR(14)	Prong activeSubState	(const StateID stateId)	  const noexcept;
@@ -3919,6 +3923,7 @@ HFSM2_CONSTEXPR(14)
 void
 RegistryT<ArgsT<TG_, TSL_, TRL_, NCC_, 0, 0, TRO_ HFSM2_IF_SERIALIZATION(, NSB_) HFSM2_IF_PLANS(, NTC_), TTP_>>::backup(BackUp& copy) const noexcept {
 	overwriteWith(copy.compoRequested, compoRequested);
+	overwriteWith(copy.compoRemains  , compoRemains  );
 }
 
 template <typename TG_, typename TSL_, typename TRL_, Long NCC_, typename TRO_ HFSM2_IF_SERIALIZATION(, Long NSB_) HFSM2_IF_PLANS(, Long NTC_), typename TTP_>
@@ -3926,6 +3931,7 @@ HFSM2_CONSTEXPR(14)
 void
 RegistryT<ArgsT<TG_, TSL_, TRL_, NCC_, 0, 0, TRO_ HFSM2_IF_SERIALIZATION(, NSB_) HFSM2_IF_PLANS(, NTC_), TTP_>>::restore(const BackUp& copy) noexcept {
 	overwriteWith(compoRequested, copy.compoRequested);
+	overwriteWith(compoRemains  , copy.compoRemains  );
 }
 
 template <typename TG_, typename TSL_, typename TRL_, Long NCC_, typename TRO_ HFSM2_IF_SERIALIZATION(, Long NSB_) HFSM2_IF_PLANS(, Long NTC_), typename TTP_>
